@@ -138,6 +138,45 @@ def random_decide(tier, seed, n=None):
                     st_["rq"]["url"] = long_url
         out.append({"id": "rnd/%06d" % i, "backend": "fs" if i % 16 == 0 else ("fsenc" if i % 16 == 8 else "mem"),
                     "opt": {"tz": r.choice([-5, 2])} if i % 11 == 4 else {}, "steps": steps, "grp": "", "spv": 0})
+    return out + ancient_dates(tier) + lifetime_after_304(tier)
+
+
+def ancient_dates(tier):
+    """an origin whose clock is centuries off (dsk = CAP: the harness writes a Date of the year 1066, 1583 or 1700): the age
+    is beyond anything a duration can hold and has to saturate, whatever the lifetime comes from"""
+    out = []
+    i = 0
+    for life in ({"ma": 60}, {"ma": 3600}, {"ex": 90}, {"lm": 1000}, {"ma": 60, "age": 5}):
+        for st in (200, 404):
+            for d1, d2 in ((0, 1), (1, 5), (3, 100)):
+                a = ans(ccp=1 if "ma" in life else 0, etag=1, dsk=CAP, st=st, **life)
+                again = ans(k="304", st=304, ccp=1, ma=60, etag=1, upd=1)
+                steps = [{"op": "req", "rq": rq(), "ans": [a]}, {"op": "tick", "d": d1},
+                         {"op": "req", "rq": rq(), "ans": [again, ans(ccp=1, ma=60, etag=2)]}, {"op": "tick", "d": d2},
+                         {"op": "req", "rq": rq(), "ans": [again, ans(ccp=1, ma=60, etag=2)]}]
+                out.append({"id": "ancient/%03d" % i, "backend": "fs" if i % 5 == 0 else "mem", "opt": {}, "steps": steps, "grp": "", "spv": 0})
+                i += 1
+    return out
+
+
+def lifetime_after_304(tier):
+    """what gives a stored response its lifetime after a 304 has replaced its Cache-Control: a stored response of a status
+    that allows heuristics or not, with an old Last-Modified, freshened by a 304 whose Cache-Control carries no lifetime
+    (none at all, private, public, must-revalidate) or a short one; probed inside and outside ten per cent of its age"""
+    out = []
+    i = 0
+    for st in (200, 203, 302, 307, 404, 500, 308):
+        for cc in ({"ccp": 0}, {"ccp": 1, "fl": ["private"]}, {"ccp": 1, "fl": ["public"]}, {"ccp": 1, "fl": ["must-revalidate"]}, {"ccp": 1, "ma": 5}):
+            for lm in (100000, 40):
+                stored = ans(st=st, ccp=1, ma=3, etag=1, lm=lm)
+                a304 = ans(k="304", st=304, etag=1, upd=1, **cc)
+                later = [ans(k="304", st=304, ccp=1, ma=3, etag=1), ans(st=st, ccp=1, ma=3, etag=2)]
+                steps = [{"op": "req", "rq": rq(), "ans": [stored]}, {"op": "tick", "d": 5},
+                         {"op": "req", "rq": rq(), "ans": [a304, ans(st=st, ccp=1, ma=3, etag=2)]}, {"op": "tick", "d": 2},
+                         {"op": "req", "rq": rq(), "ans": later}, {"op": "tick", "d": 20},
+                         {"op": "req", "rq": rq(), "ans": later}]
+                out.append({"id": "life304/%03d" % i, "backend": "fs" if i % 6 == 0 else "mem", "opt": {}, "steps": steps, "grp": "", "spv": 0})
+                i += 1
     return out
 
 
